@@ -30,7 +30,14 @@ def run_property(pid, tier, seed, root=None, write_evidence=True):
         "std/smallvec/hashbrown/tracing summaries (DESIGN 3.0)",
         "hpo-facts extractor",
     ]
-    mod.run(ck, prog, {"tier": tier, "seed": seed, "root": root or build.REPO, "facts": f})
+    ctx = {"tier": tier, "seed": seed, "root": root or build.REPO, "facts": f}
+    mod.run(ck, prog, ctx)
+    if tier == "thorough":
+        import mutants
+        import witness
+        ck.rule("MUTANT", "checker-sensitivity corpus: every seeded defect is reported naming the instance, every behaviour-preserving refactor stays silent (DESIGN 9)")
+        witness.run(ck, pid, ctx)
+        mutants.run(ck, pid, ctx)
     return ck.finish()
 
 
